@@ -10,12 +10,12 @@ scratch=$(mktemp -d /dev/shm/verifcov-XXXXXX); trap 'rm -rf "$scratch"' EXIT
 key=$(echo "$VERIF_REPO" | cksum | cut -d' ' -f1)
 modf="$VERIF_DIR/engine/go.gen.$key.mod"
 sed "s#=> /repo/hermes#=> $VERIF_REPO/hermes#" "$VERIF_DIR/engine/go.mod" > "$modf"; cp "$VERIF_DIR/engine/go.sum" "${modf%.mod}.sum"
-( cd "$VERIF_DIR/engine" && go build -modfile="$modf" -tags verif -cover -coverpkg=github.com/zalf-rpm/Hermes2Go/hermes -o "$scratch/vcheck" ./cmd/vcheck ) || exit 2
+( cd "$VERIF_DIR/engine" && go build -modfile="$modf" -tags verif -cover -coverpkg=github.com/zalf-rpm/Hermes2Go/hermes,verif/cmd/vcheck -o "$scratch/vcheck" ./cmd/vcheck ) || exit 2
 mkdir -p "$scratch/cov" "$scratch/out"
 for id in ${*:-C01 C02 C04 C05 C06 C07 C08 C09 C10 C12 C13 C14 C15 C16 C18 C19 C20}; do
   GOCOVERDIR="$scratch/cov" VERIF_OUT_DIR="$scratch/out" "$scratch/vcheck" "$id" --tier quick 2>&1 | tail -1 | cut -c1-160
 done
-go tool covdata textfmt -i="$scratch/cov" -o "$scratch/cov.txt" 2>/dev/null
+go tool covdata textfmt -i="$scratch/cov" -o "$scratch/cov.txt"
 out="${COVERAGE_OUT:-/tmp/verif-coverage.txt}"
 cp "$scratch/cov.txt" "$out"
 python3 - "$scratch/cov.txt" <<'PY'
@@ -27,6 +27,7 @@ for l in open(sys.argv[1]):
     loc,n,c=l.rsplit(' ',2); n=int(n); c=int(c)
     seen[loc]=(n,max(c,seen.get(loc,(n,0))[1]))
 for loc,(n,c) in seen.items():
+    if '/hermes/' not in loc: continue
     f=loc.split(':')[0].split('/')[-1]; tot+=n
     if c>0: cov+=n
     else: files[f]+=n; miss[f].append(loc.split(':')[1])
